@@ -25,7 +25,8 @@ META = {
         "M-WF inspects every polynomial array returned across the API boundary (caller frame "
         "outside numpoly; events from sys.monitoring PY_RETURN on all numpoly code objects) while "
         "the workloads of C01 (expression DAGs), C02 (evaluation), C05 (division), C06 "
-        "(derivatives), C09-C11 (operation catalogue) and C19 run: distinct exponent rows, one "
+        "(derivatives), C09-C11 (operation catalogue) and C19 and the repository's own test-suite "
+        "(as workload only) run: distinct exponent rows, one "
         "coefficient per row with the array's shape and dtype, >= 1 distinct names matching the "
         "exponent width, raw field names decoding to the same exponents; every 4th returned "
         "polynomial is also rebuilt from (exponents, coefficients, names), from the raw view + "
@@ -78,6 +79,7 @@ def shards(tier, seed):
     n = 8 if tier == "quick" else 16
     out = [{"kind": "ride", "part": i, "n": 1500 if tier == "quick" else 12000} for i in range(n)]
     out += [{"kind": "construct", "part": i, "n": 1500 if tier == "quick" else 15000} for i in range(2)]
+    out.append({"kind": "suite", "part": 0})
     return out
 
 
@@ -107,11 +109,15 @@ class WfMonitor:
             ctx.count("wf_checked")
             found = WF.problems(poly)
             kind = "malformed"
-            if not found and self.seen % 4 == 0:
+            import numpoly
+            current = numpoly.get_options()
+            shipped = numpoly.get_options(defaults=True)
+            naming_default = all(current[k] == shipped[k] for k in
+                                 ("default_varname", "varname_filter", "force_number_suffix"))
+            if not found and self.seen % 4 == 0 and naming_default:
                 # the rebuild routes are stated for default options
-                import numpoly
-                current = numpoly.get_options()
-                numpoly.set_options(**numpoly.get_options(defaults=True))
+                numpoly.set_options(retain_names=shipped["retain_names"],
+                                    retain_coefficients=shipped["retain_coefficients"])
                 try:
                     ctx.count("wf_rebuilds")
                     found = WF.rebuild_problems(poly)
@@ -329,15 +335,46 @@ def run_construct(spec, ctx):
         ctx.run_case(case, lambda c: run_triple(c, ctx))
 
 
+def run_suite(spec, ctx, monitor_factory=None):
+    """The repository's own tests as an additional workload (never as an oracle)."""
+    import io
+    import os
+    import contextlib
+
+    import pytest
+
+    snapshot = os.environ["NUMPOLY_VERIF_SNAPSHOT"]
+    monitor = (monitor_factory or WfMonitor)(ctx)
+    monitor.current = {"source": "suite", "note": "repository test-suite as workload"}
+    if not ctx.begin(monitor.current):
+        return
+    monitor.api.attach()
+    sink = io.StringIO()
+    try:
+        with contextlib.redirect_stdout(sink), contextlib.redirect_stderr(sink):
+            pytest.main(["-q", "-p", "no:cacheprovider", "--rootdir", snapshot, "-W", "ignore",
+                         os.path.join(snapshot, "test")])
+    finally:
+        monitor.api.detach()
+    ctx.count("suite_boundary_calls", monitor.api.boundary_calls)
+    ctx.count("api_boundary_calls", monitor.api.boundary_calls)
+    ctx.sample(monitor.current)
+    ctx.end()
+
+
 def run(spec, ctx):
     if "replay_case" in spec:
         case = spec["replay_case"]
-        if "source" in case:
+        if case.get("source") == "suite":
+            run_suite(spec, ctx)
+        elif "source" in case:
             run_ride(spec, ctx)
         else:
             run_construct(spec, ctx)
         return
     if spec["kind"] == "ride":
         run_ride(spec, ctx)
+    elif spec["kind"] == "suite":
+        run_suite(spec, ctx)
     else:
         run_construct(spec, ctx)
